@@ -22,6 +22,10 @@ def expand (runs : List (RowRun α)) (r c : Nat) : α :=
   | none => default
   | some evs => cellAt evs c
 
+/-- the run list seen through one component `val` of the cell payload (values, or formulas) -/
+def runsOf {ε : Type} (val : ε → α) (runs : List (Nat × List (ε × Nat))) : List (RowRun α) :=
+  runs.map fun r => (r.1, r.2.map fun x => (val x.1, x.2))
+
 /-- the same for rows given by their explicit cells -/
 def gridF (rows : List (Nat × List α)) (r c : Nat) : α :=
   match runAt rows r with
